@@ -189,3 +189,30 @@ func flattenCorpus() []any {
 	}
 	return out
 }
+
+// stream `flattenPlus` (C09): bundles of the wider class W+, only the fail-safe clauses are checked.
+var flattenPlusStream = (&StreamSpec{
+	Name:   "flattenPlus",
+	Op:     "ping",
+	N:      240,
+	Stream: 9,
+	Rule:   "bundles of W+ (a W bundle plus 1..2 of: anonymous pointer to a boolean additionalProperties / a tuple / an operation / a non-schema object, pointers nested in pointer targets and pointer cycles, references from auxiliary documents back to the root, collisions of imported definitions that contain $refs, dangling local / cross-file $refs, missing files) x the 6 option sets, each Flatten in a child process (25 s), every k-th load failing; checked: no panic, no crash, no hang, error when a planted $ref cannot be resolved; non-trivial = all; distinct by canonical JSON",
+	ImplBatch: func(ins []any) []any {
+		return runInChildren("flatten", ins, 25*time.Second, 14)
+	},
+	Nontrivial: func(c *Case) bool { return true },
+	Compare: func(c *Case, out any) []Finding {
+		return flattenFindings(c, false)
+	},
+}).register()
+
+func init() {
+	flattenPlusStream.Gen = func(g *Gen, i int) (any, string) {
+		o := optionSets[i%len(optionSets)]
+		gb := NewGen(g.seed, 2<<40|uint64(i/len(optionSets)))
+		in := flattenCase(gb, o, true, 0, 0, true)
+		mergeFeat(g.feat, gb.feat)
+		return in, o.String()
+	}
+	replayers["flattenPlus"] = replayers["ping"]
+}
